@@ -87,17 +87,17 @@ Section Theory.
 
   (* ---------- one-step characterisations ---------- *)
   Lemma step_start : forall s, wg s = None -> broken s = false ->
-    step Start s = (St (listed s) (upload s) (Some (WG [] [])) (mcp s) (newrevs s) (resident s) false, ROk).
+    step Start s = (St (listed s) (upload s) (Some (WG [] [])) (mcp s) (newrevs s) false, ROk).
   Proof. intros s Hw Hb. unfold WriteGroup.step. rewrite Hb, Hw. reflexivity. Qed.
 
   Lemma step_ins : forall s w k, wg s = Some w -> broken s = false ->
     step (Ins k) s =
       (St (listed s) (upload s) (Some (WG (wnew w ++ [k]) (wres w))) (mcp_after_insert C is_gc s k)
-          (if kind_eqb (kind_of C k) KRev then newrevs s ++ [k] else newrevs s) (resident s) false, ROk).
+          (if kind_eqb (kind_of C k) KRev then newrevs s ++ [k] else newrevs s) false, ROk).
   Proof. intros s w k Hw Hb. unfold WriteGroup.step. rewrite Hb, Hw. reflexivity. Qed.
 
   Lemma step_abort : forall s w, wg s = Some w -> broken s = false ->
-    step Abort s = (St (listed s) (nremove_all (wres w) (upload s)) None (mcp s) [] (resident s) false, ROk).
+    step Abort s = (St (listed s) (nremove_all (wres w) (upload s)) None (mcp s) [] false, ROk).
   Proof. intros s w Hw Hb. unfold WriteGroup.step. rewrite Hb, Hw. reflexivity. Qed.
 
   Lemma commit_ok_inv : forall s s', step Commit s = (s', ROk) ->
@@ -105,8 +105,7 @@ Section Theory.
       (is_gc = true -> check_new_inventories s = true) /\
       refs_ok (view s) (wnew w) = true /\ forallb (refs_ok (view s)) (wres w) = true /\
       s' = St (listed s ++ (if wnew w then [] else [wnew w]) ++ wres w)
-              (nremove_all (wres w) (upload s)) None (mcp s) []
-              (nremove_all (wres w) (resident s)) false.
+              (nremove_all (wres w) (upload s)) None (mcp s) [] false.
   Proof.
     intros s s'. unfold WriteGroup.step.
     destruct (broken s) eqn:Hb; [discriminate|].
@@ -123,15 +122,15 @@ Section Theory.
   (* ---------- T1: abort ---------- *)
   Lemma run_inserts_shape : forall ks s w, broken s = false -> wg s = Some w ->
     let s' := run (map Ins ks) s in
-    listed s' = listed s /\ upload s' = upload s /\ resident s' = resident s /\ broken s' = false /\
+    listed s' = listed s /\ upload s' = upload s /\ broken s' = false /\
     wg s' = Some (WG (wnew w ++ ks) (wres w)) /\
     (is_gc = true -> mcp s = [] -> mcp s' = []).
   Proof.
     induction ks as [|k ks IH]; intros s w Hb Hw; simpl.
     - rewrite app_nil_r. destruct w. repeat split; try assumption; try reflexivity. intros _ H; exact H.
     - rewrite (step_ins s w k Hw Hb). simpl.
-      set (s1 := St _ _ _ _ _ _ _).
-      destruct (IH s1 (WG (wnew w ++ [k]) (wres w)) eq_refl eq_refl) as (H1 & H2 & H3 & H4 & H5 & H6).
+      set (s1 := St _ _ _ _ _ _).
+      destruct (IH s1 (WG (wnew w ++ [k]) (wres w)) eq_refl eq_refl) as (H1 & H2 & H4 & H5 & H6).
       simpl in *. repeat split; try assumption.
       + rewrite H5. simpl. rewrite <- app_assoc. reflexivity.
       + intros Hg Hm. apply H6; [exact Hg|]. unfold mcp_after_insert. rewrite Hg, Hm. reflexivity.
@@ -140,19 +139,35 @@ Section Theory.
   Theorem abort_invisible : forall s ks, wg s = None -> broken s = false ->
     let s' := run (Start :: map Ins ks ++ [Abort]) s in
     listed s' = listed s /\ upload s' = upload s /\ visible s' = visible s /\
-    wg s' = None /\ broken s' = false /\ resident s' = resident s.
+    wg s' = None /\ broken s' = false.
   Proof.
     intros s ks Hw Hb. simpl. rewrite (step_start s Hw Hb). simpl.
-    set (s1 := St _ _ _ _ _ _ _). rewrite run_app.
-    destruct (run_inserts_shape ks s1 (WG [] []) eq_refl eq_refl) as (H1 & H2 & H3 & H4 & H5 & _).
+    set (s1 := St _ _ _ _ _ _). rewrite run_app.
+    destruct (run_inserts_shape ks s1 (WG [] []) eq_refl eq_refl) as (H1 & H2 & H4 & H5 & _).
     simpl in *. set (s2 := run (map Ins ks) s1) in *.
     rewrite (step_abort s2 _ H5 H4). simpl. rewrite nremove_all_nil.
-    unfold visible. simpl. rewrite H1, H2, H3. repeat split; reflexivity.
+    unfold visible. simpl. rewrite H1, H2. repeat split; reflexivity.
   Qed.
 
-  (* the same when the delete of the new pack FAILS inside abort (with or without suppress_errors):
-     the cleanup of the indices and of _new_pack happens regardless, so nothing of the group stays
-     visible and the object can start the next write group *)
+  (* abort while every delete on upload/ FAILS (with or without suppress_errors), for ANY write
+     group, resumed or not: all clean-up steps still run, so nothing of the group stays visible on
+     disk or to the object, and the object can start its next write group; the resumed packs could
+     not be deleted and are still suspended in upload/ *)
+  Theorem abort_fault_any : forall s w sup, wg s = Some w -> broken s = false ->
+    let s' := fst (step (AbortF sup) s) in
+    listed s' = listed s /\ upload s' = upload s /\ visible s' = visible s /\
+    view s' = visible s /\ wg s' = None /\ broken s' = false /\ newrevs s' = [] /\
+    snd (step Start s') = ROk.
+  Proof.
+    intros s w sup Hw Hb.
+    assert (Hst : step (AbortF sup) s =
+              (St (listed s) (upload s) None (mcp s) [] false, if sup then ROk else RErr ETransport)).
+    { unfold WriteGroup.step. rewrite Hb, Hw. reflexivity. }
+    cbv zeta. rewrite Hst. cbn [fst]. set (s' := St _ _ _ _ _ _).
+    rewrite (step_start s' eq_refl eq_refl).
+    unfold view, visible. simpl. rewrite app_nil_r. repeat split; reflexivity.
+  Qed.
+
   Lemma abort_fault_same_state : forall s w sup, wg s = Some w -> broken s = false -> wres w = [] ->
     fst (step (AbortF sup) s) = fst (step Abort s).
   Proof.
@@ -163,17 +178,17 @@ Section Theory.
   Theorem abort_fault_invisible : forall s ks sup, wg s = None -> broken s = false ->
     let s' := run (Start :: map Ins ks ++ [AbortF sup]) s in
     listed s' = listed s /\ upload s' = upload s /\ visible s' = visible s /\ view s' = view s /\
-    wg s' = None /\ broken s' = false /\ resident s' = resident s /\
+    wg s' = None /\ broken s' = false /\
     snd (step Start s') = ROk /\
     s' = run (Start :: map Ins ks ++ [Abort]) s.
   Proof.
     intros s ks sup Hw Hb.
     assert (Heq : run (Start :: map Ins ks ++ [AbortF sup]) s = run (Start :: map Ins ks ++ [Abort]) s).
-    { simpl. rewrite (step_start s Hw Hb). simpl. set (s1 := St _ _ _ _ _ _ _). rewrite !run_app.
-      destruct (run_inserts_shape ks s1 (WG [] []) eq_refl eq_refl) as (_ & _ & _ & H4 & H5 & _).
+    { simpl. rewrite (step_start s Hw Hb). simpl. set (s1 := St _ _ _ _ _ _). rewrite !run_app.
+      destruct (run_inserts_shape ks s1 (WG [] []) eq_refl eq_refl) as (_ & _ & H4 & H5 & _).
       simpl in H5. simpl. apply (abort_fault_same_state _ _ sup H5 H4). reflexivity. }
     cbv zeta. rewrite Heq.
-    destruct (abort_invisible s ks Hw Hb) as (H1 & H2 & H3 & H4 & H5 & H6).
+    destruct (abort_invisible s ks Hw Hb) as (H1 & H2 & H3 & H4 & H5).
     set (s' := run (Start :: map Ins ks ++ [Abort]) s) in *.
     repeat split; try assumption.
     - unfold view. rewrite H3, H4, Hw. reflexivity.
@@ -186,17 +201,17 @@ Section Theory.
     run (Start :: map Ins ks ++ [Abort]) s = s.
   Proof.
     intros s ks Hg Hw Hb Hm Hn. simpl. rewrite (step_start s Hw Hb). simpl.
-    set (s1 := St _ _ _ _ _ _ _). rewrite run_app.
-    destruct (run_inserts_shape ks s1 (WG [] []) eq_refl eq_refl) as (H1 & H2 & H3 & H4 & H5 & H6).
+    set (s1 := St _ _ _ _ _ _). rewrite run_app.
+    destruct (run_inserts_shape ks s1 (WG [] []) eq_refl eq_refl) as (H1 & H2 & H4 & H5 & H6).
     simpl in *. set (s2 := run (map Ins ks) s1) in *.
     rewrite (step_abort s2 _ H5 H4). simpl. rewrite nremove_all_nil.
-    rewrite H1, H2, H3, (H6 Hg Hm). clear H1 H2 H3 H4 H5 H6 s2 s1.
-    destruct s as [l u g m n r b]; simpl in *. subst. reflexivity.
+    rewrite H1, H2, (H6 Hg Hm). clear H1 H2 H4 H5 H6 s2 s1.
+    destruct s as [l u g m n b]; simpl in *. subst. reflexivity.
   Qed.
 
   (* abort of a resumed write group: pack-names unchanged, exactly the resumed packs leave upload/ *)
   Theorem abort_resumed : forall s ts r ks, wg s = None -> broken s = false ->
-    resume_toks (upload s) (resident s) [] ts = RsOk r ->
+    resume_toks (upload s) [] ts = RsOk r ->
     let s' := run (Resume ts :: map Ins ks ++ [Abort]) s in
     listed s' = listed s /\ upload s' = nremove_all r (upload s) /\ wg s' = None /\ broken s' = false.
   Proof.
@@ -204,11 +219,11 @@ Section Theory.
     assert (Hst : step (Resume ts) s =
               (St (listed s) (upload s) (Some (WG [] r))
                   (mcp s ++ missing_comp C is_gc (visible s ++ List.concat r) (List.concat r))
-                  (revs_of (List.concat r)) (resident s ++ r) false, ROk)).
+                  (revs_of (List.concat r)) false, ROk)).
     { unfold WriteGroup.step. rewrite Hb, Hw, Hr. reflexivity. }
     simpl. rewrite Hst. simpl.
-    set (s1 := St _ _ _ _ _ _ _). rewrite run_app.
-    destruct (run_inserts_shape ks s1 (WG [] r) eq_refl eq_refl) as (H1 & H2 & H3 & H4 & H5 & _).
+    set (s1 := St _ _ _ _ _ _). rewrite run_app.
+    destruct (run_inserts_shape ks s1 (WG [] r) eq_refl eq_refl) as (H1 & H2 & H4 & H5 & _).
     simpl in *. set (s2 := run (map Ins ks) s1) in *.
     rewrite (step_abort s2 _ H5 H4). simpl. rewrite H1, H2. repeat split; reflexivity.
   Qed.
@@ -223,8 +238,8 @@ Section Theory.
     | None => newrevs s = []
     end.
 
-  Lemma resume_toks_ok : forall up resid ts acc r,
-    resume_toks up resid acc ts = RsOk r ->
+  Lemma resume_toks_ok : forall up ts acc r,
+    resume_toks up acc ts = RsOk r ->
     (forall n, In n acc -> In n up) -> NoDup acc ->
     (forall n, In n r -> In n up) /\ NoDup r.
   Proof.
@@ -232,8 +247,7 @@ Section Theory.
     - inversion H; subst. split; assumption.
     - destruct t as [n|]; [|discriminate].
       destruct (nmem n up) eqn:Hu; simpl in H; [|discriminate].
-      destruct (nmem n resid || nmem n acc) eqn:Hd; [discriminate|].
-      apply orb_false_iff in Hd. destruct Hd as [_ Hd].
+      destruct (nmem n acc) eqn:Hd; [discriminate|].
       apply (IH (acc ++ [n]) r H).
       + intros m Hm. apply in_app_iff in Hm. destruct Hm as [Hm|[Hm|[]]]; [apply Hin; exact Hm|].
         subst. apply nmem_In. exact Hu.
@@ -262,9 +276,9 @@ Section Theory.
         rewrite Hk.
         destruct (kind_eqb (kind_of C k) KRev); [reflexivity|rewrite app_nil_r; reflexivity].
     - (* Resume *)
-      destruct (resume_toks (upload s) (resident s) [] ts) as [r|r|] eqn:Hr; simpl.
+      destruct (resume_toks (upload s) [] ts) as [r|r|] eqn:Hr; simpl.
       + intros _. split; [intro Hg; unfold missing_comp; rewrite Hg, (Hm Hg); reflexivity|]. simpl.
-        destruct (resume_toks_ok _ _ _ _ _ Hr) as [Ha Hb'];
+        destruct (resume_toks_ok _ _ _ _ Hr) as [Ha Hb'];
           [intros n []|constructor|].
         repeat split; try assumption. rewrite app_nil_r. reflexivity.
       + intros _. split; [exact Hm|reflexivity].
@@ -278,7 +292,6 @@ Section Theory.
           -- intro H; discriminate.
       + intros _. rewrite Ew. split; [intro Hg; specialize (Hm Hg); discriminate|exact Hw].
     - (* Reopen *) intros _. split; [intros; reflexivity|reflexivity].
-    - (* AbortF *) destruct (wres w); simpl; [intros _; split; [exact Hm|reflexivity]|intro H; discriminate].
   Qed.
 
   Theorem Inv_run : forall ops s, Inv s -> Inv (run ops s).
@@ -293,15 +306,14 @@ Section Theory.
     | (s1, _) => s1
     end.
 
-  Lemma resume_all : forall up resid l acc,
-    (forall n, In n l -> In n up /\ ~ In n resid) -> NoDup (acc ++ l) ->
-    resume_toks up resid acc (map TName l) = RsOk (acc ++ l).
+  Lemma resume_all : forall up l acc,
+    (forall n, In n l -> In n up) -> NoDup (acc ++ l) ->
+    resume_toks up acc (map TName l) = RsOk (acc ++ l).
   Proof.
     induction l as [|n l IH]; intros acc Hin Hnd; simpl.
     - rewrite app_nil_r. reflexivity.
-    - destruct (Hin n (or_introl eq_refl)) as [Hu Hr].
+    - assert (Hu := Hin n (or_introl eq_refl)).
       apply nmem_In in Hu. rewrite Hu. simpl.
-      apply nmem_false_In in Hr. rewrite Hr. simpl.
       assert (Hacc : nmem n acc = false).
       { apply nmem_false_In. intro H. apply NoDup_remove_2 in Hnd. apply Hnd.
         apply in_app_iff. left. exact H. }
@@ -337,18 +349,17 @@ Section Theory.
     (* the object's missing-compression-parent memory agrees (as to emptiness) with what the
        write group really lacks; see mcp_agrees_fresh for when this is guaranteed *)
     (mcp s = [] <-> missing_comp C is_gc (view s) (wg_items w) = []) ->
-    (reopen = false -> forall n, In n (wres w) \/ n = wnew w -> ~ In n (resident s)) ->
     let a := step Commit (suspend_resume reopen s) in
     let b := step Commit s in
     snd a = snd b /\
     (forall k, In k (visible (fst a)) <-> In k (visible (fst b))) /\
     (snd b = ROk -> upload (fst a) = upload (fst b) /\ wg (fst a) = wg (fst b)).
   Proof.
-    intros reopen s w HI Hb Hw Hfresh Hmcp Hres.
+    intros reopen s w HI Hb Hw Hfresh Hmcp.
     destruct (HI Hb) as [Hgm Hwi]. rewrite Hw in Hwi. destruct Hwi as (Hup & Hnd & Hnr).
     set (toks := wres w ++ (if wnew w then [] else [wnew w])).
     set (up := if wnew w then upload s else upload s ++ [wnew w]).
-    assert (Hsus : step Suspend s = (St (listed s) up None (mcp s) [] (resident s) false, RToks toks)).
+    assert (Hsus : step Suspend s = (St (listed s) up None (mcp s) [] false, RToks toks)).
     { unfold WriteGroup.step. rewrite Hb, Hw. unfold up, toks.
       destruct (wnew w) as [|k l] eqn:En; [reflexivity|].
       apply nmem_false_In in Hfresh. rewrite Hfresh. reflexivity. }
@@ -360,19 +371,13 @@ Section Theory.
     assert (Htoks_nd : NoDup toks).
     { unfold toks. destruct (wnew w) as [|k l] eqn:En; [rewrite app_nil_r; exact Hnd|].
       apply NoDup_snoc; [exact Hnd|]. intro H. apply Hfresh. apply Hup. exact H. }
-    set (resid := if reopen then [] else resident s).
-    assert (Htoks_res : forall n, In n toks -> ~ In n resid).
-    { intros n Hn. unfold resid. destruct reopen; [intros []|]. apply (Hres eq_refl).
-      unfold toks in Hn. apply in_app_iff in Hn. destruct Hn as [Hn|Hn]; [left; exact Hn|].
-      destruct (wnew w) as [|k l]; [destruct Hn|]. destruct Hn as [Hn|[]]. right. symmetry. exact Hn. }
-    assert (Hrs : resume_toks up resid [] (map TName toks) = RsOk toks).
-    { apply (resume_all up resid toks []); [|exact Htoks_nd].
-      intros n Hn. split; [apply Htoks_up|apply Htoks_res]; exact Hn. }
+    assert (Hrs : resume_toks up [] (map TName toks) = RsOk toks).
+    { apply (resume_all up toks []); [exact Htoks_up|exact Htoks_nd]. }
     set (m2 := (if reopen then [] else mcp s) ++
                missing_comp C is_gc (visible s ++ List.concat toks) (List.concat toks)).
     assert (Hs2 : suspend_resume reopen s =
-                  St (listed s) up (Some (WG [] toks)) m2 (revs_of (List.concat toks)) (resid ++ toks) false).
-    { unfold suspend_resume. rewrite Hsus. unfold m2. unfold resid in *. clear Htoks_res.
+                  St (listed s) up (Some (WG [] toks)) m2 (revs_of (List.concat toks)) false).
+    { unfold suspend_resume. rewrite Hsus. unfold m2.
       destruct reopen; simpl; unfold WriteGroup.step; simpl; rewrite Hrs; reflexivity. }
     assert (Hct : List.concat toks = List.concat (wres w) ++ wnew w) by apply concat_toks.
     assert (Hm2 : m2 = [] <-> mcp s = []).
@@ -492,7 +497,7 @@ Section Theory.
     assert (Hitems : wg_items (WG (wnew w ++ [k]) (wres w)) = wg_items w ++ [k])
       by (unfold wg_items; simpl; apply app_assoc).
     rewrite Hitems.
-    set (s1 := St _ _ _ _ _ _ _).
+    set (s1 := St _ _ _ _ _ _).
     assert (Hview : view s1 = view s ++ [k]).
     { unfold view. simpl. rewrite Hw, Hitems. apply app_assoc. }
     rewrite Hview. intro c. rewrite missing_comp_In. unfold mcp_after_insert.
@@ -548,8 +553,8 @@ Section Theory.
     (mcp s = [] <-> missing_comp C is_gc (view s) (wg_items (WG ks [])) = []).
   Proof.
     intros s0 ks Hw Hb Hm. simpl. rewrite (step_start s0 Hw Hb). simpl.
-    set (s1 := St _ _ _ _ _ _ _).
-    destruct (run_inserts_shape ks s1 (WG [] []) eq_refl eq_refl) as (_ & _ & _ & H4 & H5 & _).
+    set (s1 := St _ _ _ _ _ _).
+    destruct (run_inserts_shape ks s1 (WG [] []) eq_refl eq_refl) as (_ & _ & H4 & H5 & _).
     simpl in H5. split; [exact H4|]. split; [exact H5|].
     assert (HJ : mcp_exact (run (map Ins ks) s1)).
     { apply (mcp_exact_inserts ks s1 (WG [] [])); try reflexivity.
@@ -727,10 +732,10 @@ Theorem resumed_missing_parent_is_refused :
     (suspend_resume cat_knit false true s, RErr ECheck).
 Proof. vm_compute. reflexivity. Qed.
 
-(* on the SAME object a write group that was resumed once cannot be suspended and resumed again *)
-Theorem resume_again_same_object_refuted :
-  exists ops,
-    let s := run cat_2a true ops init in
-    broken s = false /\ (exists w, wg s = Some w) /\
-    broken (suspend_resume cat_2a true false s) = true.
-Proof. exists [Start; Ins 41; Suspend; Resume [TName [41]]]. vm_compute. repeat split. eexists; reflexivity. Qed.
+(* repaired by /repo 8028393 (was resume_again_same_object_refuted): on the SAME object a write
+   group that was resumed once can be suspended and resumed again, and then commits *)
+Theorem resume_again_same_object_works :
+  let s := run cat_2a true [Start; Ins 41; Suspend; Resume [TName [41]]] init in
+  broken (suspend_resume cat_2a true false s) = false /\
+  snd (step cat_2a true Commit (suspend_resume cat_2a true false s)) = ROk.
+Proof. vm_compute. split; reflexivity. Qed.
